@@ -13,7 +13,7 @@ import vlib, build
 
 PROP = "C05"
 SPEC = os.path.join(vlib.VERIF, "spec", "errctx")
-PRE = ["proj regs", "setcfg MaxEvaluationCost 30000", "backend", "connect u1", "cycle", "line u1 name u1", "cycle",
+PRE = ["proj regs", "setcfg MaxEvaluationCost 30000", "setcfg MaxInheritDepth 8", "backend", "connect u1", "cycle", "line u1 name u1", "cycle",
        "line u1 do me ld:eccb:/obj/ecc;mk:ec:/obj/ec", "cycle", "line u1 do me probe", "cycle"]
 
 
@@ -70,7 +70,7 @@ def project(ex, armed):
         elif e == "Probe":
             if probe_depth is None:
                 probe_depth = ev["depth"]
-            out.append({"e": "Probe", "c1": ev["c1"], "c2": ev["c2"], "sum": ev["sum"], "depthOk": ev["depth"] == probe_depth})
+            out.append({"e": "Probe", "c1": ev["c1"], "c2": ev["c2"], "sum": ev["sum"], "chain": ev["chain"], "dt": ev["dt"], "depthOk": ev["depth"] == probe_depth})
     return out
 
 
